@@ -9,6 +9,7 @@ import (
 	"bytes"
 	"fmt"
 	"os"
+	"runtime"
 	"strconv"
 	"strings"
 	"sync"
@@ -29,6 +30,12 @@ func c11Worker(w *W) {
 	seenLoc := map[int]string{} // site -> location reported in default mode
 	order := []struct{ caller, fast string }{{"true", "false"}, {"true", "true"}, {"false", "false"}, {"false", "true"}, {"true", "true"}, {"true", "false"}}
 	for round, cf := range order {
+		if round == 1 && w.Spec.Flavour != "race" {
+			// before the first sequential fast-mode round: every site is still unknown to the fast lookup. 8 goroutines
+			// reach each site at the same moment (spin barrier per site), so that a site is resolved by several
+			// goroutines at once; each record must carry the location established in default mode
+			c11coldLockstep(w, ctx, tag, seenLoc)
+		}
 		cfg := map[string]string{"appender.rec.type": "VRec", "logger.lg.type": "Logger", "logger.lg.tags": "c11tag", "logger.lg.appenderRef.ref": "rec",
 			"enableCaller": cf.caller, "fastCaller": cf.fast}
 		if round%2 == 1 {
@@ -175,6 +182,58 @@ func c11Worker(w *W) {
 	w.Count("sites", int64(len(c11sites)))
 	w.Count("sites_beyond_line_65535", int64(big))
 	w.Sample(map[string]any{"flavour": w.Spec.Flavour, "site": "Errorf in a deferred closure", "expected": "the here() marker evaluated on the same source line", "inlined_helper_file": shortPath(inlFile)})
+}
+
+func c11coldLockstep(w *W, ctx context.Context, tag *log.Tag, seenLoc map[int]string) {
+	c11locOnce.Do(func() { log.RegisterPlugin[VLoc]("VLoc", log.PluginTypeAppender) })
+	c11loc = make([]string, len(c11sites))
+	for n, loc := range seenLoc {
+		c11loc[n] = loc
+	}
+	cfg := map[string]string{"appender.loc.type": "VLoc", "logger.lg.type": "Logger", "logger.lg.tags": "c11tag", "logger.lg.appenderRef.ref": "loc", "enableCaller": "true", "fastCaller": "true"}
+	if err := log.Refresh(cfg); err != nil {
+		w.Violate("C11:refresh-failed", "Refresh failed: "+err.Error(), cfg)
+		log.Destroy()
+		return
+	}
+	c11locBad.Store(0)
+	c11locSeen.Store(0)
+	c11locFirst.Store("")
+	G := 8
+	if n := runtime.NumCPU(); n < G {
+		G = n
+	}
+	arrived := make([]atomic.Int32, len(c11sites))
+	var wg sync.WaitGroup
+	for g := 0; g < G; g++ {
+		wg.Add(1)
+		go func() {
+			defer wg.Done()
+			for i, s := range c11sites {
+				if s.shape == "goroutine" {
+					continue
+				}
+				arrived[i].Add(1)
+				for spins := 0; arrived[i].Load() < int32(G); spins++ {
+					if spins > 1<<22 {
+						runtime.Gosched() // never wait forever on an overloaded machine
+					}
+				}
+				s.run(ctx, tag)
+			}
+		}()
+	}
+	wg.Wait()
+	log.Destroy()
+	w.Eval(c11locSeen.Load())
+	w.Count("cold_lockstep_observations", c11locSeen.Load())
+	if bad := c11locBad.Load(); bad > 0 {
+		first, _ := c11locFirst.Load().(string)
+		w.Violate("C11:wrong-location:fast:concurrent", fmt.Sprintf("%d goroutines reaching each never-resolved site at the same moment (fast mode, %s build): %d of %d records carried a wrong location; first: %s", G, w.Spec.Flavour, bad, c11locSeen.Load(), first),
+			map[string]any{"fastCaller": "true", "goroutines": G, "phase": "cold lockstep"})
+	} else if c11locSeen.Load() > 0 {
+		w.Distinct("cold-lockstep|fast|" + w.Spec.Flavour)
+	}
 }
 
 // VLoc: appender that only compares the event's location with the expected one of its site (id in the msg field).
